@@ -4,6 +4,8 @@ the full snapshot after the call).  Failing-input search on the
 implementation: arg-max of its own activations (oldest on ties), permutation /
 batching / repetition invariance, range, model unchanged."""
 import sys
+import contextlib
+import io
 
 import numpy as np
 
@@ -48,7 +50,7 @@ def oracle(k, ops):
         fails.append(rep("predict altered the model: " + str(c06_first_diff(before, after)), "pure"))
     for i, x in enumerate(Q):
         T = [float(est.category_choice(x, w, params=est.params)[0]) for w in est.W]
-        want = int(np.argmax(T))
+        want = first_max(T)
         if int(y[i]) != want:
             fails.append(rep(f"row {i}: predicted {int(y[i])}, oldest maximiser of the activations is {want}", "argmax"))
             break
@@ -90,9 +92,93 @@ def first_argmax_labels(mod, Xq):
     out = []
     for x in np.asarray(Xq, dtype=float):
         T = [float(m.category_choice(x, w, params=m.params)[0]) for w in m.W]
-        c = int(np.argmax(T))
+        c = first_max(T)
         out.append(int(mod.map[c]) if m is not mod else c)
     return out
+
+
+def first_max(T):
+    """the oldest category of maximal activation; an undefined (NaN) activation is not a maximum"""
+    T = np.asarray(T, dtype=float)
+    if np.all(np.isnan(T)):
+        return 0
+    return int(np.nanargmax(T))
+
+
+def module_oracle(rng):
+    """every elementary module, also where activations degenerate (wide BayesianART: det(cov) underflows, far categories
+    get 0/0), rows in any container dtype (whole-number data as bool / uint8 / int8 / int64 / float32), and modules
+    trained inside a wrapper (TopoART as A side or as a FusionART channel): predict is pure and returns the oldest
+    category of maximal activation computed from the module's own category_choice on float rows"""
+    import artlib
+    import kernfam
+    what = rng.choice(["dtype", "dtype", "bayes-wide", "nested-topo"])
+    try:
+        if what == "dtype":
+            kind = rng.choice(["ART2A", "ART2A", "ART1", "Fuzzy", "Hyper", "Gauss"])
+            d = rng.choice([3, 6, 300]) if kind == "ART2A" else rng.choice([2, 3])
+            p = kernfam.gen_params(rng, kind, d)
+            if kind == "ART2A":
+                p = {"rho": rng.choice([0.0, 0.3]), "alpha": 0.0, "beta": rng.choice([1.0, 0.5])}
+            if kind == "ART1" and p["L"] == 1.0:
+                p["L"] = 2.0
+            if kind in ("Fuzzy", "Hyper") and p["alpha"] == 0.0:
+                p["alpha"] = 1e-3
+            n = rng.randrange(4, 10)
+            dens = rng.choice([0.3, 0.6, 0.9])
+            raw = np.array([[1 if rng.random() < dens else 0 for _ in range(d)] for _ in range(n)])
+            for r in raw:
+                if not r.any():
+                    r[rng.randrange(d)] = 1
+            Xi = np.hstack([raw, 1 - raw]) if kind == "Fuzzy" else raw
+            dt = rng.choice([bool, np.uint8, np.int8, np.int64, np.float32])
+            ref = kernfam.make(kind, p); ref.fit(Xi.astype(float))
+            est = kernfam.make(kind, p); est.fit(Xi.astype(dt))
+            rep = {"module": kind, "params": {k_: (np.asarray(v_).tolist() if isinstance(v_, np.ndarray) else v_) for k_, v_ in p.items()}, "X": Xi.tolist() if d < 50 else f"{n}x{d} binary rows", "dtype": np.dtype(dt).name}
+            if [int(v) for v in est.labels_] != [int(v) for v in ref.labels_]:
+                return {"signature": f"{kind}.predict/input-dtype", "text": f"rows given as {np.dtype(dt).name} are clustered {[int(v) for v in est.labels_]}, the same values as float64 {[int(v) for v in ref.labels_]}", "replay": rep}
+            pq, pr = [int(v) for v in est.predict(Xi.astype(dt))], [int(v) for v in ref.predict(Xi.astype(float))]
+            if pq != pr:
+                return {"signature": f"{kind}.predict/input-dtype", "text": f"queries given as {np.dtype(dt).name} are labelled {pq}, the same values as float64 {pr}", "replay": rep}
+            want = first_argmax_labels(ref, Xi.astype(float))
+            if want is not None and pr != want:
+                return {"signature": f"{kind}.predict/argmax", "text": f"predict {pr} is not the oldest arg-max of activation {want}", "replay": rep}
+        elif what == "bayes-wide":
+            d = rng.choice([81, 90, 120])
+            n = rng.randrange(6, 13)
+            X = np.array([[rng.random() for _ in range(d)] for _ in range(n)])
+            est = artlib.BayesianART(rho=rng.choice([1e-4, 1.0]), cov_init=1e-4 * np.eye(d))
+            with np.errstate(all="ignore"):
+                est.fit(X)
+                before = strip(zoo.canon(est))
+                got = [int(v) for v in est.predict(X)]
+                after = strip(zoo.canon(est))
+                want = first_argmax_labels(est, X)
+            rep = {"module": "BayesianART", "cov_init": "1e-4 * I", "width": d, "rows": n, "seeded_rows": "uniform [0,1)", "how": "fit(X); predict(X)"}
+            if before != after:
+                return {"signature": "BayesianART.predict/pure", "text": "predict altered the model", "replay": rep}
+            if got != want:
+                return {"signature": "BayesianART.predict/argmax", "text": f"predict {got}, the oldest category of maximal (defined) activation per row is {want}", "replay": rep}
+        else:
+            d = rng.choice([1, 2])
+            n = rng.randrange(5, 12)
+            X = zoo.cc_rows(rng, n, d)
+            with contextlib.redirect_stdout(io.StringIO()):
+                topo = artlib.TopoART(artlib.FuzzyART(rng.choice([0.25, 0.5, 0.75]), 1e-3, 1.0), beta_lower=0.5, tau=1000, phi=1)
+                if rng.random() < 0.5:
+                    est = artlib.SimpleARTMAP(topo); est.fit(X, np.array([rng.randrange(2) for _ in range(n)])); Q = X[:4]
+                else:
+                    est = artlib.FusionART([topo, artlib.FuzzyART(0.5, 1e-3, 1.0)], [0.5, 0.5], [2 * d, 2 * d]); est.fit(np.hstack([X, X])); Q = np.hstack([X, X])[:4]
+                before = strip(zoo.canon(est))
+                est.predict(Q)
+                topo.predict(X[:4])          # the module trained inside the wrapper is a trained model of its own
+                after = strip(zoo.canon(est))
+            if before != after:
+                return {"signature": f"{type(est).__name__}(TopoART).predict/pure", "text": "predict altered the model: " + str(c06_first_diff(before, after)),
+                        "replay": {"estimator": type(est).__name__ + " over TopoART(FuzzyART), tau=1000 (no pruning)", "X": np.asarray(X).tolist()}}
+    except Exception:
+        return None
+    return None
 
 
 def zoo_oracle(rng, n):
@@ -189,6 +275,17 @@ def main():
             v.known(f["signature"], kf.get("text", f["signature"]))
         else:
             v.violation(dict(f["replay"], property="C08", signature=f["signature"], what=f["text"]))
+    rng_m = C.make_rng(seed, "C08-modules")
+    n_mod = 200 if tier == "quick" else 2000
+    for _ in range(n_mod):
+        f = module_oracle(rng_m)
+        if f:
+            kf = C.match_known("C08", f["signature"])
+            if kf is not None:
+                v.known(f["signature"], kf.get("text", f["signature"]))
+            else:
+                v.violation(dict(f["replay"], property="C08", signature=f["signature"], what=f["text"]))
+    v.cov["module_queries_dtype_degenerate_nested"] = n_mod
     v.cov["compound_estimator_queries"] = zn
     sys.exit(v.finish())
 
